@@ -1664,6 +1664,7 @@ psBool_t isResumedHandshake(const ssl_t *ssl)
  */
 
 # ifndef USE_ONLY_PSK_CIPHER_SUITE
+extern void matrixSslSetCertChainAlert(ssl_t *ssl, psX509Cert_t *leaf);
 extern int32 matrixUserCertValidator(ssl_t *ssl, int32 alert,
                                      psX509Cert_t *subjectCert, sslCertCb_t certCb);
 # endif /* USE_ONLY_PSK_CIPHER_SUITE */
